@@ -130,7 +130,7 @@ func (s *musigSetup) refAgg() (pre, final *refmusig.KeyAggCtx, tw [][]byte, xo [
 	switch s.tweakMode {
 	case 1:
 		for _, t := range s.tweaks {
-			tw = append(tw, append([]byte{}, t.Tweak[:]...))
+			tw = append(tw, exact(t.Tweak[:]))
 			xo = append(xo, t.IsXOnly)
 		}
 	case 2:
@@ -400,7 +400,7 @@ func famMusigFree(k *mon.Case) {
 	var refPubNs [][]byte
 	for _, sg := range s.signers {
 		pubNs = append(pubNs, sg.pubN)
-		refPubNs = append(refPubNs, append([]byte{}, sg.pubN[:]...))
+		refPubNs = append(refPubNs, exact(sg.pubN[:]))
 	}
 	g := s.guard()
 	pubs := s.pubs() // ONE list object for every call of the session (btcd may sort it when asked to)
@@ -699,7 +699,7 @@ func famMusigContext(k *mon.Case) {
 	}
 	var refPubNs [][]byte
 	for _, sg := range s.signers {
-		refPubNs = append(refPubNs, append([]byte{}, sg.pubN[:]...))
+		refPubNs = append(refPubNs, exact(sg.pubN[:]))
 	}
 	wantAgg, rerr := refmusig.NonceAgg(refPubNs)
 	if rerr != nil {
@@ -780,7 +780,7 @@ func famMusigContext(k *mon.Case) {
 			k.Failf("musig:Session.Sign:nonce-reuse-allowed", "%s signer=%d signed twice", s.shape, i)
 		}
 		psigs[i] = ps
-		refPsigs = append(refPsigs, append([]byte{}, got[:]...))
+		refPsigs = append(refPsigs, exact(got[:]))
 		k.Count("musig.partial.sign", 1)
 	}
 	wantFin, rerr := refmusig.PartialSigAggV(refPsigs, vals)
@@ -954,7 +954,7 @@ func famMusigNonceParse(k *mon.Case) {
 			}
 		}
 		pubNs = append(pubNs, pn)
-		refPubNs = append(refPubNs, append([]byte{}, pn[:]...))
+		refPubNs = append(refPubNs, exact(pn[:]))
 	}
 	k.Desc(map[string]any{"family": "musig.nonceparse", "pubnonces": fmt.Sprintf("%x", refPubNs), "class": cls})
 	got, err := musig2.AggregateNonces(pubNs)
